@@ -110,6 +110,12 @@ func c15(c *Ctx) {
 		if err == nil {
 			var want []string
 			var srcs [][]byte
+			// an output older than its template (the command regenerates a file only when the template is the newer one)
+			stale := func(name, text string) {
+				os.WriteFile(name, []byte(text), 0644)
+				old := time.Now().Add(-time.Hour)
+				os.Chtimes(name, old, old)
+			}
 			for i, in := range ins {
 				a := pairs[i].Impl
 				if a.Outcome != "ok" || a.Err != "-" || len(want) >= c.N(40, 400) {
@@ -120,6 +126,15 @@ func c15(c *Ctx) {
 					continue // (not Go: the command writes nothing for it; C18 covers that clause)
 				}
 				os.WriteFile(filepath.Join(dir, fmt.Sprintf("f%d.goht", len(want))), in, 0644)
+				switch len(want) % 3 {
+				case 1:
+					// the usual state of a working tree: the output of an earlier, longer version of the template is there
+					stale(filepath.Join(dir, fmt.Sprintf("f%d.goht.go", len(want))), string(code)+"\nfunc removedSince() {}\n")
+					c.dist("cli-binary-files.over-a-longer-earlier-output")
+				case 2:
+					stale(filepath.Join(dir, fmt.Sprintf("f%d.goht.go", len(want))), "package stale\n")
+					c.dist("cli-binary-files.over-a-shorter-earlier-output")
+				}
 				want = append(want, string(code))
 				srcs = append(srcs, in)
 			}
@@ -221,6 +236,7 @@ type c11File struct {
 	imports  []string // expected user imports, deduplicated, in order
 	goLines  []string // every non-blank Go line outside templates (not package/import lines), in order
 	decls    []string // template declarations as written
+	trailers []string // per declaration: Go code on the line of the template's closing brace ("" = none)
 	features []string
 	blocks   []string // multi-line raw strings / block comments that must appear verbatim, blank lines included
 }
@@ -348,7 +364,19 @@ func (c *Ctx) genC11(i int, risky bool) c11File {
 			f.features = append(f.features, "multi-line-declaration")
 		}
 		f.decls = append(f.decls, decl)
-		w("@goht " + decl + " {\n\t%p= a\n\t%hr\n}\n\n")
+		trailer := ""
+		switch r.Intn(6) {
+		case 0:
+			trailer = fmt.Sprintf(" // end of template %d", t)
+		case 1:
+			trailer = fmt.Sprintf("; var after%d = %d", t, t)
+		}
+		f.trailers = append(f.trailers, trailer)
+		w("@goht " + decl + " {\n\t%p= a\n\t%hr\n}" + trailer + "\n\n")
+		if trailer != "" {
+			f.goLines = append(f.goLines, trailer)
+			f.features = append(f.features, "go-code-on-the-closing-brace-line")
+		}
 	}
 	for k := r.Intn(3); k > 0; k-- {
 		goLine(goChunks[r.Intn(len(goChunks))])
@@ -463,10 +491,15 @@ func c11(c *Ctx) {
 		// Go lines: strip header, import lines and template functions, compare the non-blank lines in order
 		body := out
 		// cut the generated template functions out (their declarations may span lines)
-		for _, d := range f.decls {
+		for di, d := range f.decls {
 			head := "\nfunc " + d + " goht.Template {\n"
 			if k := strings.Index(body, head); k >= 0 {
-				if e := strings.Index(body[k+len(head):], "\n}\n"); e >= 0 {
+				if f.trailers[di] != "" {
+					// the function's closing brace shares its line with Go code: that code stays, as a line of its own
+					if e := strings.Index(body[k+len(head):], "\n}"); e >= 0 {
+						body = body[:k+1] + body[k+len(head)+e+2:]
+					}
+				} else if e := strings.Index(body[k+len(head):], "\n}\n"); e >= 0 {
 					body = body[:k+1] + body[k+len(head)+e+3:]
 				}
 			}
